@@ -78,6 +78,13 @@ def build_app(variant=0):
     app.secret_key = "c17-secret"
     app.auth_type = "Digest"
     app.auth_algorithm = "MD5-sess"
+    if variant == 3:
+        # RFC 2069 style: no qop, plain algorithm - the applications of one process need not agree
+        app.auth_algorithm = "MD5"
+        app.auth_qop = None
+    elif variant == 4:
+        app.auth_algorithm = "SHA-256"
+        app.auth_qop = None
     app.auth_map = {"Zone": {"user": hexdigest("user", "Zone", "pw", app.auth_hash)}}
     if variant == 1:
         app.keep_blank_values = 1
@@ -112,6 +119,11 @@ def build_app(variant=0):
     def hit(req):
         point(req, "enter")
         out = "hit %s %s %s" % (req.method, sorted(req.args.items()), req.headers.get("X-Tag"))
+        # the handler owns the values it was handed: what it does to them must stay within this request
+        for v in req.args.values():
+            if isinstance(v, list):
+                v.sort(reverse=True)
+                v.append("mine")
         point(req, "exit")
         return out
 
@@ -219,7 +231,7 @@ def env_of(method="GET", path="/hit", query="", body=None, ctype=None, headers=N
     return env
 
 
-def digest_header(uri, method="GET", password="pw"):
+def digest_header(uri, method="GET", password="pw", legacy=None):
     import hashlib
     from poorwsgi.session import get_token
     import poorwsgi.session as S
@@ -231,6 +243,13 @@ def digest_header(uri, method="GET", password="pw"):
         S.time = old
     h = lambda s: hashlib.md5(s.encode()).hexdigest()      # noqa: E731
     opaque = hashlib.sha256(b"srv").hexdigest()
+    if legacy:
+        # no qop: response = H(H(A1):nonce:H(A2)), no nc/cnonce sent
+        if legacy == "SHA-256":
+            h = lambda s: hashlib.sha256(s.encode()).hexdigest()      # noqa: E731
+        resp = h(":".join([h("user:Zone:" + password), nonce, h("%s:%s" % (method, uri))]))
+        return ('Digest username="user", realm="Zone", nonce="%s", uri="%s", algorithm=%s, response="%s", opaque="%s"'
+                % (nonce, uri, legacy, resp, opaque))
     a1 = h("%s:%s:%s" % (h("user:Zone:" + password), nonce, "cn"))
     resp = h(":".join([a1, nonce, "00000001", "cn", "auth", h("%s:%s" % (method, uri))]))
     return ('Digest username="user", realm="Zone", nonce="%s", uri="%s", algorithm=MD5-sess, response="%s", opaque="%s", '
@@ -249,6 +268,7 @@ def session_cookie():
 KINDS = {
     "hit": lambda: env_of(query="a=1&b=2", headers={"X-Tag": "t1"}),
     "hit2": lambda: env_of(query="a=other", headers={"X-Tag": "t2"}),
+    "hit-multi": lambda: env_of(query="a=1&a=3&a=2&b=x", headers={"X-Tag": "t3"}),
     "hit-post": lambda: env_of("POST", "/hit", body=b"x=1", ctype="application/x-www-form-urlencoded"),
     "item": lambda: env_of(path="/item/42"),
     "item-bad": lambda: env_of(path="/item/abc"),
@@ -277,6 +297,8 @@ KINDS = {
     "auth-none": lambda: env_of(path="/admin"),
     "auth-bad": lambda: env_of(path="/admin", headers={"Authorization": digest_header("/admin", password="nope")}),
     "auth-ok": lambda: env_of(path="/admin", headers={"Authorization": digest_header("/admin")}),
+    "auth-legacy": lambda: env_of(path="/admin", headers={"Authorization": digest_header("/admin", legacy="MD5")}),
+    "auth-legacy256": lambda: env_of(path="/admin", headers={"Authorization": digest_header("/admin", legacy="SHA-256")}),
     "login": lambda: env_of(path="/login", query="u=bob"),
     "whoami": lambda: env_of(path="/whoami", headers={"Cookie": session_cookie()}),
     "whoami-none": lambda: env_of(path="/whoami"),
@@ -483,12 +505,19 @@ def count_points(kind, variant):
 def generate(rng, tier):
     big = tier == "thorough"
     cases = ["C17 inventory"]
+    # applications with different authentication settings in one process (first: nothing has run yet)
+    for vb, kb in ((3, "auth-legacy"), (4, "auth-legacy256")):
+        for ka in ("auth-ok", "auth-bad", "auth-none"):
+            cases.append("C17 two 0 %d B%s,A%s,B%s" % (vb, kb, ka, kb))
+            cases.append("C17 two %d 0 A%s,B%s,A%s" % (vb, kb, ka, kb))
     # histories against one application
     names = KIND_NAMES
     for a in names:
         for b in names:
             if big or rng.random() < 0.12:
                 cases.append("C17 hist %d %s,%s" % (rng.randrange(5), a, b))
+    for a in names:       # the same request twice
+        cases.append("C17 hist %d %s,%s" % (rng.randrange(5), a, a))
     for _ in range(6000 if big else 250):
         cases.append("C17 hist %d %s" % (rng.randrange(5), ",".join(rng.choice(names) for _ in range(3))))
     # two applications in one process
